@@ -1198,7 +1198,13 @@ class Lexer:
                 self.accept(self.RE_LINE_TERM)
 
             else:
-                self.error("unclosed comment block detected")
+                # Comment text is free text. A line need not start with a word.
+                pos = self.pos
+                self.accept(self.RE_REST_OF_LINE)
+                if self.pos == pos:
+                    # The end of the liquid tag, or of the input.
+                    self.error("unclosed comment block detected")
+                self.accept(self.RE_LINE_TERM)
 
         return self.lex_inside_liquid_tag
 
